@@ -1064,6 +1064,8 @@ def m_sorted(it, v, key=None, reverse=False):
     items = iter_concrete(it, v)
     if not has_sym(items) and key is None:
         return sorted(items, reverse=reverse)
+    if not has_sym(items) and callable(key) and not isinstance(key, EngineValue):
+        return sorted(items, key=key, reverse=reverse)   # concrete items, native key function (itemgetter / attrgetter)
     if len(items) <= 1:
         return list(items)
     # tuples whose first components are concrete and pairwise distinct: the order is decided by them alone
